@@ -14,6 +14,7 @@ REGISTRY = {
     "C03": ("checks.ledger_checks", "c03"),
     "C09": ("checks.ledger_checks", "c09"),
     "C11": ("checks.ledger_checks", "c11"),
+    "C06": ("checks.calls_checks", "c06"),
     "C07": ("checks.calls_checks", "c07"),
     "C08": ("checks.calls_checks", "c08"),
     "C16": ("checks.featurizer_checks", "c16"),
